@@ -3,9 +3,10 @@
 // body (proved): inv_mod (CRT / Garner recombination for the modulus s * 2^k: invertibility decided exactly, canonical result, result
 //         precision), inv_mod2k, inv_mod2k_vartime (all k admitted), inv_mod2k_full_vartime (bit-serial inverse mod 2^k, invariant
 //         a*x + b*2^i == 1 mod W of the fixed-width twins in l4_invmod.rs), `impl InvMod for BoxedUint`,
-//         wrapping_sub_assign.
+//         wrapping_sub_assign, inv_odd_mod (from the boxed Bernstein-Yang inverter: BoxedSafeGcdInverter::new of l8_boxed_monty.rs and
+//         `Inverter::invert` of l8_boxed_safegcd_top.rs, both proved).
 // body (proved, bit writes): set_bit, set_bit_vartime (lemmas: l8_boxed_lemmas.rs, copies of the private bit lemmas of l2_shift.rs).
-// stub (ASSUMED): inv_odd_mod (Bernstein-Yang safegcd inverter, src/modular/safegcd/boxed.rs), as_words / as_words_mut (`&[Limb]` reinterpreted as
+// stub (ASSUMED): as_words / as_words_mut (`&[Limb]` reinterpreted as
 //         `&[Word]` by an unsafe cast); model of subtle: `From<CtOption<T>> for Option<T>`, `ConstantTimeEq for usize`.
 // Separate unit because the `ConstantTimeSelect` trait of l8_boxed_methods.rs declares `ct_select` only (one region = one impl
 // block = one method): `ct_assign` is declared and proved in l8_boxed_ct.rs and imported by name here.
@@ -22,7 +23,11 @@ use crate::l1_choice::*;
 use crate::l1_limb::*;
 use crate::l2_core::*;
 use crate::l2_subtle::*;
-use crate::l4_invmod::{gcd, lemma_inverse_coprime};
+use crate::l4_invmod::{gcd, lemma_inverse_coprime, lemma_sg_gcd_eq, lemma_gcd_sym};
+use crate::l4_safegcd::sg_gcd;
+use crate::l8_boxed_safegcd::{SG_BOXED_MAX_SAT, sg_invert_post};
+use crate::l8_boxed_safegcd_top::Inverter;
+use crate::l8_boxed_monty::PrecomputeInverter;   // (cyclic import: l8_boxed_monty.rs uses `inv_mod_post` / `words_of` of this unit)
 use crate::l7_traits::*;
 use crate::l7_boxed_div::*;
 use crate::l8_boxed_lemmas::*;
@@ -359,24 +364,35 @@ pub fn inv_mod2k_vartime(&self, k: u32) -> (ret__: (Self, Choice))
     }
 }
 //@@ end
-//@@ fn src/uint/boxed/inv_mod.rs | impl BoxedUint | inv_odd_mod | stub | props C10 C11
+//@@ fn src/uint/boxed/inv_mod.rs | impl BoxedUint | inv_odd_mod | body | props C10 C11
 impl BoxedUint {
-#[verifier::external_body]
 pub fn inv_odd_mod(&self, modulus: &Odd<Self>) -> (ret__: CtOption<Self>)
 //@+
-    // ASSUMED (Bernstein-Yang safegcd, src/modular/safegcd/boxed.rs: BoxedSafeGcdInverter::new + invert; not verified here).
+    // PROVED from the boxed Bernstein-Yang inverter (BoxedSafeGcdInverter::new in l8_boxed_monty.rs + Inverter::invert in
+    // l8_boxed_safegcd_top.rs).  Domain: an odd modulus, or 0 -- BoxedUint::inv_mod calls it with Odd(0) for a zero modulus and discards the
+    // result (as the fixed-width Uint::inv_odd_mod, l4_invmod.rs).
     // Equal precisions (the inverter widens `self` to the modulus and converts back with `to_uint(self.bits_precision())`).
-    // Total on the modulus: BoxedUint::inv_mod calls it with Odd(0) for a zero modulus (checked natively: no panic).
-    requires self.wf(), modulus.0.nl() == self.nl()
+    // Size: the inverter computes its iteration count 49 * bits + 80 in u32 (overflow beyond SG_BOXED_MAX_SAT() = 1_369_567 limbs).
+    requires self.wf(), modulus.0.nl() == self.nl(), self.nl() <= SG_BOXED_MAX_SAT(), modulus.0.v() % 2 == 1 || modulus.0.v() == 0
     ensures ret__.is_some.wf(), ret__.value.nl() == self.nl(),
         modulus.0.v() % 2 == 1 ==> ret__.is_some.t() == (gcd(self.v() as nat, modulus.0.v() as nat) == 1),
         (modulus.0.v() % 2 == 1 && ret__.is_some.t()) ==> (self.v() * ret__.value.v()) % modulus.0.v() == 1int % modulus.0.v(),
         (modulus.0.v() % 2 == 1 && modulus.0.v() >= 2 && ret__.is_some.t()) ==> 0 <= ret__.value.v() < modulus.0.v(),
-        modulus.0.v() == 1 ==> 0 <= ret__.value.v() <= 1
+        modulus.0.v() == 1 ==> 0 <= ret__.value.v() <= 1,
+        modulus.0.v() % 2 == 1 ==> 0 <= ret__.value.v() <= modulus.0.v()
 //@-
 {
-    unimplemented!()
-}
+//@+
+    proof {
+        let mv = modulus.0.v(); let xv = self.v();
+        lemma_val_bound(modulus.0.limbs@, self.nl()); lemma_val_bound(self.limbs@, self.nl());
+        lemma_sg_gcd_eq(mv as nat, xv as nat);
+        lemma_gcd_sym(mv as nat, xv as nat);
+        assert forall|r: int| #[trigger] (r * xv) == xv * r by { assert(r * xv == xv * r) by (nonlinear_arith); }
+    }
+//@-
+        modulus.precompute_inverter().invert(self)
+    }
 }
 //@@ end
 //@@ fn src/uint/boxed/inv_mod.rs | impl BoxedUint | inv_mod2k | body | props C10 C11 C15
@@ -473,7 +489,9 @@ pub fn inv_mod2k(&self, k: u32) -> (ret__: (Self, Choice))
 impl BoxedUint {
 pub fn inv_mod(&self, modulus: &Self) -> (ret__: CtOption<Self>)
 //@+
-    requires self.wf(), modulus.nl() == self.nl(), 2 * self.nl() < 0x400_0000   // wrapping_mul builds the 2n-limb product
+    // wrapping_mul builds the 2n-limb product; SG_BOXED_MAX_SAT() = 1_369_567 limbs: beyond it the iteration count of the Bernstein-Yang
+    // inverter (inv_odd_mod) overflows u32
+    requires self.wf(), modulus.nl() == self.nl(), 2 * self.nl() < 0x400_0000, self.nl() <= SG_BOXED_MAX_SAT()
     ensures inv_mod_post(self, modulus, ret__)
 //@-
 {
@@ -560,7 +578,7 @@ pub fn inv_mod(&self, modulus: &Self) -> (ret__: CtOption<Self>)
 impl InvMod for BoxedUint {
 //@+
     type Output = Self;
-    open spec fn inv_mod_req(&self, p: &Self) -> bool { self.wf() && p.nl() == self.nl() && 2 * self.nl() < 0x400_0000 }
+    open spec fn inv_mod_req(&self, p: &Self) -> bool { self.wf() && p.nl() == self.nl() && 2 * self.nl() < 0x400_0000 && self.nl() <= SG_BOXED_MAX_SAT() }
     open spec fn inv_mod_ens(&self, p: &Self, r: CtOption<Self>) -> bool { inv_mod_post(self, p, r) }
 //@-
 fn inv_mod(&self, modulus: &Self) -> (ret__: CtOption<Self>)
